@@ -97,7 +97,7 @@ def _standalone_job(k):
 
     rng = np.random.default_rng(seed() * 211 + k)
     prob = om.Problem(reports=False)
-    what = ["atmos", "monotonic", "multisec", "mphys", "energy", "ks"][k % 6]
+    what = ["atmos", "monotonic", "multisec", "mphys", "energy", "ks", "mpf"][k % 7]
     if what == "atmos":
         prob.model.add_subsystem("a", AtmosGroup(), promotes=["*"])
         prob.model.set_input_defaults("altitude", float(rng.uniform(500, 58000)), units="ft")
@@ -141,11 +141,21 @@ def _standalone_job(k):
         from openaerostruct.structures.failure_ks import FailureKS
 
         ny = int(rng.integers(3, 8))
-        ncrit = 2 if k % 12 < 6 else 4
+        ncrit = 2 if (k // 7) % 2 == 0 else 4
         surf = {"name": "wing", "mesh": np.zeros((2, ny, 3)), "symmetry": True, "fem_model_type": "tube" if ncrit == 2 else "wingbox", "yield": 2.0e8, "safety_factor": 1.0}
-        prob.model.add_subsystem("ks", FailureKS(surface=surf, rho=100.0), promotes=["*"])
+        prob.model.add_subsystem("ks", FailureKS(surface=surf, rho=float([100.0, 37.0, 250.0][(k // 14) % 3])), promotes=["*"])
         top = 2.0e8 * float(10.0 ** rng.uniform(-1.5, 1.5))
         prob.model.set_input_defaults("vonmises", top * rng.uniform(0.2, 1.0, (ny - 1, ncrit)))
+    elif what == "mpf":
+        # the documented chordwise weights of the panel-force distribution at non-default (force-conserving) values
+        from openaerostruct.aerodynamics.mesh_point_forces import MeshPointForces
+
+        nx, ny = int(rng.integers(2, 5)), int(rng.integers(2, 6))
+        le = float(rng.uniform(0.1, 0.45))
+        surf = {"name": "wing", "mesh": np.zeros((nx, ny, 3)), "symmetry": bool(k % 2)}
+        kw = {} if (k // 7) % 3 == 0 else {"le_wt": le, "te_wt": 0.5 - le}
+        prob.model.add_subsystem("mpf", MeshPointForces(surfaces=[surf], **kw), promotes=["*"])
+        prob.model.set_input_defaults("wing_sec_forces", rng.normal(0, 1e3, (nx - 1, ny - 1, 3)), units="N")
     else:
         ny = 4
         surf = {"name": "wing", "mesh": np.zeros((2, ny, 3)), "symmetry": True}
@@ -188,7 +198,7 @@ def run(tier, only=None):
             tot[kk] += r["stats"][kk]
         for sig, p in r["bad"]:
             R.violation(sig, {"cfg": r["cfg"], "k": r["k"], "detail": p})
-    for r in check_exc(pmap(_standalone_job, range(18 if tier == "quick" else 90))):
+    for r in check_exc(pmap(_standalone_job, range(28 if tier == "quick" else 140))):
         R.case(["standalone", r["what"], r["k"]], True, section="standalone")
         classes |= set(r["classes"])
         tot["blocks"] += r["blocks"]
